@@ -418,8 +418,13 @@ def Args.symList : Args → Tree (List Term)
 def Args.symBool (isOr : Bool) (prev : Term) : Args → Tree Term
   | .nil => .leaf prev
   | .cons e r =>
-    if isOr then .test (.truth prev) (.leaf prev) (e.sym.bind fun t => Args.symBool isOr t r)
-    else .test (.truth prev) (e.sym.bind fun t => Args.symBool isOr t r) (.leaf prev)
+    -- an operand whose truth is a literal (`not x`, `x is None`, a constant) does not fork: building both branches only to have
+    -- `norm` drop one would make `not a or not b or …` exponential
+    match (Q.truth prev).static with
+    | some b => if b == isOr then .leaf prev else e.sym.bind fun t => Args.symBool isOr t r
+    | none =>
+      if isOr then .test (.truth prev) (.leaf prev) (e.sym.bind fun t => Args.symBool isOr t r)
+      else .test (.truth prev) (e.sym.bind fun t => Args.symBool isOr t r) (.leaf prev)
 def CmpRest.symChain (left : Term) : CmpRest → Tree Term
   | .last o e => e.sym.bind fun u => cmpSym o left u
   | .more o e r => e.sym.bind fun u => (cmpSym o left u).bind fun c => .test (.truth c) (CmpRest.symChain u r) (.leaf c)
